@@ -312,6 +312,12 @@ end
 
 def str (s : String) : List Char := s.toList
 
+/-- `matches!(name.units.last(), Some(Unquoted(Literal('$'))))` (`impl Display for FunctionDefinition`) -/
+def endsWithDollar (w : Word) : Bool :=
+  match w.getLast? with
+  | some (.unquoted (.literal c)) => c = '$'
+  | _ => false
+
 def printRedirsSp : List Redir → List Char
   | [] => []
   | r :: rs => ' ' :: (printRedir r ++ printRedirsSp rs)
@@ -357,8 +363,11 @@ mutual
     | .simple c => printSimple c
     | .compound c redirs => printCompound c ++ printRedirsSp redirs
     | .function kw name body redirs =>
-      (if kw then str "function " else []) ++ (printWord name ++ (str "() " ++
-        (printCompound body ++ printRedirsSp redirs)))
+      -- A name ending with an unquoted `$` must not be directly followed by `(`, or the result
+      -- would be parsed as a command substitution.
+      (if kw then str "function " else []) ++ (printWord name ++
+        ((if endsWithDollar name then [' '] else []) ++ (str "() " ++
+          (printCompound body ++ printRedirsSp redirs))))
   /-- `self.commands.iter().format(" | ")` -/
   def printCommands : List Command → List Char
     | [] => []
